@@ -5,7 +5,9 @@ from ..index import AnalysisError, attr_chain, norm, own_nodes
 from ..query import calls_in, call_name
 
 EXPLANATION = (
-    "Static purity and propagation analysis of HandshakeSettings.validate() and the 17 helper "
+    "OFFER: the ClientHello's supported_groups keeps every group the settings enable when key-share "
+    "groups are moved to the front (the set expressions are evaluated over small sets) and each "
+    "advertised list-valued setting has its extension. Static purity and propagation analysis of HandshakeSettings.validate() and the 17 helper "
     "methods it reaches. ALIAS: a flow-sensitive abstract interpretation tracks which fields of the "
     "copy still alias a container of the receiver (other.f = self.g) and reports every in-place "
     "mutation (slice assignment, append/remove/sort/..., del x[i], augmented assignment, or passing "
@@ -542,7 +544,66 @@ def rule_supported(ctx):
                   "an empty %s after filtering must be rejected" % field, fi.loc())
 
 
+def rule_offer(ctx):
+    """what the settings enable reaches the ClientHello: the supported_groups reordering keeps
+    every advertised group (decided by evaluating the two set expressions over small sets)."""
+    from ..condeval import ev, Unknown
+    R = "C19.OFFER"
+    fi = ctx.index.func("tlsconnection:TLSConnection._clientSendClientHello")
+    blk = None
+    for n in own_nodes(fi.node):
+        if isinstance(n, ast.If) and norm(n.test) == "shares" and any(
+                isinstance(s, ast.Assign) and norm(s.targets[0]) == "groups" for s in n.body):
+            blk = n
+    if blk is None:
+        raise AnalysisError("C19.OFFER: supported_groups reordering block not found")
+    bad = None
+    try:
+        for groups in ((1, 2, 3), (3, 2, 1), (5,)):
+            for share_ids in ((), (1,), (2, 1), (4,), (3, 9)):
+                env = {"groups": groups, "shares": [object()] * len(share_ids)}
+                for st in blk.body:
+                    if not (isinstance(st, ast.Assign) and isinstance(st.targets[0], ast.Name)):
+                        raise Unknown("statement " + norm(st)[:40])
+                    if norm(st.targets[0]) == "share_ids":
+                        env["share_ids"] = share_ids       # [i.group for i in shares]
+                        continue
+                    env[st.targets[0].id] = ev(st.value, env)
+                new = tuple(env["groups"])
+                if not (set(groups) <= set(new) and new[:len(share_ids)] == share_ids
+                        and len(new) == len(set(new)) and set(new) == set(groups) | set(share_ids)):
+                    bad = (groups, share_ids, new)
+    except Unknown as u:
+        raise AnalysisError("C19.OFFER: group reordering uses a construct the rule does not model: %s" % u)
+    ctx.check(R, bad is None, fi.qname, "supported_groups = key-share groups first, then every other enabled group",
+              "the ClientHello's supported_groups must list the key-share groups first and keep EVERY group the "
+              "settings enable; for enabled groups %s and key shares %s it advertises %s (a server whose only "
+              "common group has no key share can then not connect)" % (bad or ("", "", "")), fi.loc(blk))
+    src = [norm(s) for s in own_nodes(fi.node) if isinstance(s, ast.Expr)]
+    ok = "groups.extend(self._curveNamesToList(settings))" in src and "groups.extend(self._groupNamesToList(settings))" in src
+    ctx.check(R, ok, fi.qname, "groups built from settings' curves and FFDHE groups",
+              "supported_groups must be built from the settings' eccCurves and dhGroups", fi.loc())
+    ext = [s for s in src if "SupportedGroupsExtension().create(groups)" in s]
+    ctx.check(R, len(ext) == 1, fi.qname, "the reordered list is what is advertised",
+              "the supported_groups extension must be created from `groups`", fi.loc())
+    for nm, fld, enum in (("_curveNamesToList", "eccCurves", "GroupName"), ("_groupNamesToList", "dhGroups", "GroupName")):
+        f = ctx.index.func("tlsconnection:TLSConnection." + nm)
+        src_ = " ".join(norm(x) for x in own_nodes(f.node) if isinstance(x, (ast.Return, ast.Assign)))
+        ok = ("[getattr(%s, val) for val in settings.%s]" % (enum, fld)) in src_
+        ctx.check(R, ok, f.qname, "%s maps every name of settings.%s" % (nm, fld),
+                  "%s must translate every entry of settings.%s" % (nm, fld), f.loc())
+    # one extension per list-valued setting that is advertised
+    table = [("settings.versions", "SupportedVersionsExtension"), ("settings.psk_modes", "PskKeyExchangeModesExtension"),
+             ("settings.ec_point_formats", "ECPointFormatsExtension"), ("settings.record_size_limit", "RecordSizeLimitExtension")]
+    allsrc = " ".join(norm(s) for s in own_nodes(fi.node) if isinstance(s, (ast.Expr, ast.Assign)))
+    for setting, cls in table:
+        ok = cls in allsrc and setting in allsrc
+        ctx.check(R, ok, fi.qname, "%s advertised through %s" % (setting, cls),
+                  "%s is no longer carried into the ClientHello by %s" % (setting, cls), fi.loc())
+
+
 RULES = [
+    ("C19.OFFER", "quick", rule_offer),
     ("C19.ALIAS", "quick", rule_alias),
     ("C19.FIELDS", "quick", rule_fields),
     ("C19.DOMAIN", "quick", rule_domain),
